@@ -239,7 +239,8 @@ def _model_split(m: Model):
         else:
             new_top.extend(_split_leaf(t))
     m.top = new_top
-    if m.group_by and m.has_loose():
+    # the items setter groups only a list that holds no block at all
+    if m.group_by and m.top and not any(isinstance(t, Block) for t in m.top):
         m.regroup(m.group_by)
 
 
@@ -260,8 +261,10 @@ def seeds(seed):
         ("nxos", ["10 remark = one", f"20 permit tcp {ip(w)}/24 any eq 22", "30 permit ip addrgroup GRP any",
                   "40 remark = two", f"50 deny ip host {ip(w + 1)} any", "60 permit ip any any"],
          {"GRP": mem_nx}, PREFIX),  # this seed starts grouped (blocks carry sequence numbers)
-        ("ios", ["remark lead", "permit 47 any any", f"permit ip {ip(w)} 0.0.1.3 any", "permit 47 any any",
-                 "remark = only", "deny tcp any any neq 25", "permit tcp any any eq 135"], {}, ""),
+        # first and last line are equal; the last one already carries the number 10
+        ("ios", ["permit 47 any any", "remark lead", f"permit ip {ip(w)} 0.0.1.3 any",
+                 "remark = only", "deny tcp any any neq 25", "permit tcp any any eq 135",
+                 "10 permit 47 any any"], {}, ""),
     ]
 
 
